@@ -253,9 +253,8 @@ def zoo_options(types):
         add('fcompgrad', _leaf('fcompgrad', 'X', 'X', mid='Y', m={
             '$': 'matrix', 'shape': [types['Y']['shape'][0], X.shape[0]],
             'dtype': X.dtype}))
-    # (float32: known finding C06-K5, excluded by construction)
     if not cplx and len(X.shape) == 1 and X.shape[0] >= 2 and \
-            types['X']['kind'] == 'tensor' and X.dtype == 'float64':
+            types['X']['kind'] == 'tensor':
         for sc in (100.0, 1.0, 2.5):
             add('rosenbrock_grad', _leaf('rosenbrock_grad', 'X', 'X',
                                          scale=sc))
@@ -584,15 +583,8 @@ def _site(b):
 
 def _region(env, node):
     di, ri = env.info(node['dom']), env.info(node['ran'])
-    suffix = ''
-    if node['op'] in ('rscal', 'div'):
-        sv = ex.scalar_value(node['s'])
-        if isinstance(sv, complex) and sv.imag != 0 and \
-                ex.nonholomorphic(env.types, node['a']):
-            suffix = ':cscal-nonholo'
-    return '{}->{}|{}{}'.format(di.cat, ri.cat,
-                                'cplx' if (di.cplx or ri.cplx) else 'real',
-                                suffix)
+    return '{}->{}|{}'.format(di.cat, ri.cat,
+                              'cplx' if (di.cplx or ri.cplx) else 'real')
 
 
 def _eval(env, b, xval):
@@ -809,14 +801,6 @@ def run_case(desc):
     eps = env.eps
     depth = ex.tree_depth(tree)
     reg = _region(env, tree)
-
-    # region of known finding C04-K4 (evaluation overwrites its argument):
-    # the difference quotient would be meaningless
-    for n in ex.tree_nodes(tree):
-        if n['op'] in ('addvec', 'addscal') and \
-                ex.tinfo(types, n['ran']).cat != 'field' and \
-                ex.aliases_input(n['a']):
-            return Outcome('excluded', strata=['excluded:C04-K4'])
 
     try:
         root = ex.build(env, tree)
